@@ -32,10 +32,10 @@ type blobBlock struct {
 }
 
 type blobFrame struct {
-	version                                    byte
-	compSize                                   uint64
+	version                                              byte
+	compSize                                             uint64
 	tapeSize, stringsSize, msgSize, tagsSize, valuesSize uint64
-	strs, msg, tags, vals                      blobBlock
+	strs, msg, tags, vals                                blobBlock
 }
 
 var errTooLarge = errors.New("declared section too large")
@@ -196,11 +196,11 @@ func encodeBlockRaw(dst []byte, raw []byte, typ byte, declared uint64) []byte {
 
 // rawBlob is a decoded blob that can be mutated and re-framed.
 type rawBlob struct {
-	version                   byte
-	tapeSize, stringsSize     uint64
-	msg, tags, vals           []byte
+	version                    byte
+	tapeSize, stringsSize      uint64
+	msg, tags, vals            []byte
 	msgSize, tagsSize, valSize uint64 // declared
-	msgTyp, tagsTyp, valsTyp  byte
+	msgTyp, tagsTyp, valsTyp   byte
 }
 
 func decodeBlob(b []byte) (*rawBlob, error) {
@@ -407,7 +407,7 @@ func mutateBlob(t *rapid.T, blob []byte) ([]byte, string) {
 		kind := "structure"
 		n := rapid.IntRange(1, 3).Draw(t, "nsm")
 		for i := 0; i < n; i++ {
-			switch rapid.IntRange(0, 11).Draw(t, "sm") {
+			switch rapid.IntRange(0, 13).Draw(t, "sm") {
 			case 0, 1, 2: // change a tag
 				if len(rb.tags) > 0 {
 					p := rapid.IntRange(0, len(rb.tags)-1).Draw(t, "tp")
@@ -511,6 +511,46 @@ func mutateBlob(t *rapid.T, blob []byte) ([]byte, string) {
 						binary.LittleEndian.PutUint64(rb.vals[c.vi*8:], nv)
 					}
 					kind = "structure-coordinated"
+				}
+			case 10: // a flagged-float entry ('e') stores its tape word verbatim: give that word another tag byte
+				vi := 0
+				type ev struct{ ti, vi int }
+				var es, ones []ev
+				for ti, tg := range rb.tags {
+					switch tg {
+					case '"':
+						vi += 2
+					case 'e':
+						es = append(es, ev{ti, vi})
+						vi += 2
+					case 'l', 'u', 'd':
+						ones = append(ones, ev{ti, vi})
+						vi++
+					case '{', '[', 'r':
+						vi++
+					}
+				}
+				if len(es) == 0 && len(ones) > 0 {
+					// turn a number into a flagged float: one more value word
+					c := ones[rapid.IntRange(0, len(ones)-1).Draw(t, "one")]
+					if c.vi*8+8 <= len(rb.vals) {
+						rb.tags[c.ti] = 'e'
+						nv := append([]byte(nil), rb.vals[:c.vi*8]...)
+						nv = append(nv, make([]byte, 8)...)
+						nv = append(nv, rb.vals[c.vi*8:]...)
+						rb.vals = nv
+						rb.valSize = uint64(len(rb.vals))
+						es = append(es, c)
+					}
+				}
+				if len(es) > 0 {
+					c := es[rapid.IntRange(0, len(es)-1).Draw(t, "e")]
+					if c.vi*8+8 <= len(rb.vals) {
+						tg := tagPool[rapid.IntRange(0, len(tagPool)-1).Draw(t, "etag")]
+						pay := []uint64{0, 1, 2, 3, uint64(rapid.IntRange(0, 64).Draw(t, "epay")), 1<<56 - 1, uint64(rb.tapeSize)}[rapid.IntRange(0, 6).Draw(t, "epk")]
+						binary.LittleEndian.PutUint64(rb.vals[c.vi*8:], uint64(tg)<<56|pay)
+						kind = "structure-flagged-float-word"
+					}
 				}
 			default: // message shorter than the strings that point into it
 				if len(rb.msg) > 0 {
